@@ -14,7 +14,7 @@ fn bt_stub() -> std::backtrace::Backtrace {
 
 macro_rules! k_cluster_parse_w1 {
     ($name:ident, $n:expr) => {
-        // oblig: C01.c.cluster_tail_parse kind=bounded(blobs<=3,width<=2) timeout=600
+        // oblig: C01.c.cluster_tail_parse kind=bounded(blobs<=3,width<=2) timeout=900 tier=thorough
         #[kani::proof]
         #[kani::unwind(8)]
         #[kani::stub(std::fmt::format, fmt_stub)]
@@ -62,10 +62,10 @@ macro_rules! k_cluster_parse_w1 {
     };
 }
 k_cluster_parse_w1!(k_c01_cluster_parse_1, 1);
-k_cluster_parse_w1!(k_c01_cluster_parse_2, 2);
+k_cluster_parse_w1!(k_c01_cluster_parse_2, 2); // tier=quick timeout=400
 k_cluster_parse_w1!(k_c01_cluster_parse_3, 3);
 
-// oblig: C01.c.cluster_tail_parse_w2 kind=bounded(blobs=2,width=2) timeout=600
+// oblig: C01.c.cluster_tail_parse_w2 kind=bounded(blobs=2,width=2) timeout=900 tier=thorough
 #[kani::proof]
 #[kani::unwind(8)]
 #[kani::stub(std::fmt::format, fmt_stub)]
